@@ -72,6 +72,8 @@ COMMON_ASSUMPTIONS = [
     'std / dependency callees are replaced by contract models (listed in models_used), validated by running the '
     'repository unit tests inside the interpreter and by native replay of sampled paths',
     'symbolic bytes inside str values are ASCII; non-ASCII characters enter as concrete code points at enumerated positions',
+    'A-hash: std hashers are modelled as injective on the bytes fed to them (SipHash collisions are outside the claim); `static` items with '
+    'run-time initialisers are one cell per interpreter (= per process)',
     'z3 decides feasibility and assertions; every unsat verdict is re-decided by cvc5 (disagreement => inconclusive)',
 ]
 
